@@ -38,10 +38,17 @@ type mode struct {
 	Seg       int64
 	Presync   bool
 	L         int
+	// Mount: the (plain-HTTP) publisher is served under this URL path prefix
+	// of its host and named by an address with an http-path component
+	Mount string
 }
 
 func (m mode) String() string {
-	return fmt.Sprintf("disc=%v,addrs2=%v,%s,seg=%d,presync=%v,L=%d", m.Discovery, m.TwoAddrs, m.Kind, m.Seg, m.Presync, m.L)
+	s := fmt.Sprintf("disc=%v,addrs2=%v,%s,seg=%d,presync=%v,L=%d", m.Discovery, m.TwoAddrs, m.Kind, m.Seg, m.Presync, m.L)
+	if m.Mount != "" {
+		s += ",mounted-at=/" + m.Mount
+	}
+	return s
 }
 
 // pos is a request position: kind, chain index of the block (-1 otherwise),
@@ -95,7 +102,12 @@ type runner struct {
 func newRunner(m mode) *runner {
 	w := syncfx.NewWorld()
 	id := fixture.Key("ed25519", 0)
-	p := w.AddPub(id, m.Discovery)
+	var p *syncfx.Pub
+	if m.Mount != "" {
+		p = w.AddMountedPub(id, m.Mount)
+	} else {
+		p = w.AddPub(id, m.Discovery)
+	}
 	if m.TwoAddrs {
 		p.AddHost("pub0b.test:80")
 	}
@@ -249,7 +261,7 @@ func ints(l []int) string { return strings.Trim(fmt.Sprint(l), "[]") }
 
 func TestCheck(t *testing.T) {
 	r := vp.New("C04", "fault_enumeration",
-		"modes: {libp2p-HTTP discovery, plain HTTP} x {1, 2 addresses} x {explicit sync with queried head, with explicit head, announce-triggered} x {unsegmented, segment size 1, 2} x {nothing synced before, part of the chain synced before} on a chain of L advertisements. For each mode a fault-free reference run fixes the request positions; then every fault kind (HTTP 400/403/404/500/503, connection closed, declared length longer than body, corrupt body, substituted body, empty body, stalled response, caller cancellation during a request, hook failure per block in segmented mode (FailSync alone, and FailSync followed by SetNextSyncCid(cid.Undef)), caller cancellation from inside each block-hook call i.e. between requests and between segments, an address for which no client can be created) at every position, singly, in pairs over a reduced kind set (quick: 404 / 403 / 500 / connection closed / unusable address) and over the larger kind set (thorough), within one attempt and across attempt and retry, each followed by a fault-free retry on the same subscriber. Non-trivial: every faulted run. Distinct = distinct (mode, fault script).",
+		"modes: {libp2p-HTTP discovery, plain HTTP, plain HTTP served under a URL path prefix and named by an http-path address} x {1, 2 addresses} x {explicit sync with queried head, with explicit head, announce-triggered} x {unsegmented, segment size 1, 2} x {nothing synced before, part of the chain synced before} on a chain of L advertisements. For each mode a fault-free reference run fixes the request positions; then every fault kind (HTTP 400/403/404/500/503, connection closed, declared length longer than body, corrupt body, substituted body, empty body, stalled response, caller cancellation during a request, hook failure per block in segmented mode (FailSync alone, and FailSync followed by SetNextSyncCid(cid.Undef)), caller cancellation from inside each block-hook call i.e. between requests and between segments, an address for which no client can be created) at every position, singly, in pairs over a reduced kind set (quick: 404 / 403 / 500 / connection closed / unusable address) and over the larger kind set (thorough), within one attempt and across attempt and retry, each followed by a fault-free retry on the same subscriber. Non-trivial: every faulted run. Distinct = distinct (mode, fault script).",
 		"stalled responses and time-outs run in virtual time inside a synctest bubble; the horizon for 'no event will come' is 30 virtual minutes",
 		"a fault that the client masks (address fail-over, legacy path fallback) must leave all observations equal to the fault-free reference",
 		"the stream-reset retry branch needs a libp2p stream transport and is not driven",
@@ -273,10 +285,16 @@ func TestCheck(t *testing.T) {
 						if !thorough && two && (seg == 2 || pre) {
 							continue
 						}
-						modes = append(modes, mode{disc, two, kind, seg, pre, L})
+						modes = append(modes, mode{Discovery: disc, TwoAddrs: two, Kind: kind, Seg: seg, Presync: pre, L: L})
 					}
 				}
 			}
+		}
+	}
+	// a plain-HTTP publisher served under a URL path prefix
+	for _, kind := range []string{"queried", "explicit", "announce"} {
+		for _, seg := range []int64{-1, 1} {
+			modes = append(modes, mode{Kind: kind, Seg: seg, L: L, Mount: "pfx/deeper"})
 		}
 	}
 	r.Bounds(map[string]any{"modes": len(modes), "chain_length": L, "fault_kinds": len(faultKinds) + 1, "pairs": thorough})
